@@ -10,6 +10,8 @@ CONSTANTS
   Scopes <- MCScopes
   SpanFlags <- MCSpanFlags
   Mark = @MARK@
+  MaxPre = @MAXPRE@
+  AllowShut = @ALLOWSHUT@
   MaxInst = @MAXINST@
   MaxRec = @MAXREC@
   MaxScr = @MAXSCR@
